@@ -104,3 +104,20 @@ add('M12', [('SRC/sp_preorder.c', "    if ( options->Fact == DOFACT ) {\n#undef 
 add('M13', x4('SRC/?gstrs.c', "    solve_ops = 0;\n    \n    if ( trans == NOTRANS ) {", "    solve_ops = 0;\n    Lval[0] = Lval[0];\n    if ( trans == NOTRANS ) {"), ['C06'],
     note='solve writes into the L values')
 add('M12b', x4('SRC/?gssvx.c', "	if ( permc_spec != MY_PERMC && options->Fact == DOFACT )", "	if ( permc_spec != MY_PERMC )"), ['C06'], note='ordering recomputed on SamePattern')
+
+# ---------------------------------------------------------------- C12 / C13 / C14
+add('M23', x4('SRC/?gssvx.c', "        if ( notran ) {\n	    *(unsigned char *)norm = '1';", "        if ( options->Trans == NOTRANS ) {\n	    *(unsigned char *)norm = '1';"), ['C12'],
+    note='norm follows the caller flag, not the effective transpose (row storage)')
+add('M24', x4('SRC/?gscon.c', "    if ( onenrm ) kase1 = 1;\n    else kase1 = 2;", "    if ( onenrm ) kase1 = 2;\n    else kase1 = 1;"), ['C12'], note='kase1 swapped')
+add('M24b', x4('SRC/?pivotgrowth.c', "	for (j = fsupc; j < L_FST_SUPC(k+1) && j < ncols; ++j) {", "	for (j = fsupc; j < L_FST_SUPC(k+1); ++j) {"), ['C12'],
+    note='growth scan runs past the leading ncols columns inside a supernode')
+add('M24c', x4('SRC/?gssvx.c', "	    *recip_pivot_growth = ?PivotGrowth(*info, AA, perm_c, L, U);", "	    *recip_pivot_growth = ?PivotGrowth(A->ncol, AA, perm_c, L, U);"), ['C12'],
+    note='singular case: growth over all columns instead of the leading *info')
+add('M25', x4('SRC/?gsrfs.c', "<= lstres && count < ITMAX) {", "<= lstres && count <= 50) {"), ['C13'], note='up to 51 refinement steps')
+add('M25b', x4('SRC/?gsrfs.c', "		lstres = berr[j];\n		++count;\n	    } else {\n		break;\n	    }", "		lstres = berr[j];\n		if (++count == ITMAX) break;\n	    } else {\n		break;\n	    }"),
+    ['C13'], note='loop leaves right after the fifth update: BERR is stale')
+add('M26', [('SRC/zgsrfs.c', "	*(unsigned char *)transc = 'C';", "	*(unsigned char *)transc = 'T';"), ('SRC/cgsrfs.c', "	*(unsigned char *)transc = 'C';", "	*(unsigned char *)transc = 'T';")], ['C13'],
+    note='CONJ residual formed with A^T (complex)')
+add('M26b', x4('SRC/?gsrfs.c', "		?gstrs (transt, L, U, perm_c, perm_r, &Bjcol, stat, info);", "		?gstrs (trans, L, U, perm_c, perm_r, &Bjcol, stat, info);"), ['C13'],
+    note='estimator kase 1 solves with the same sense')
+add('M26c', x4('SRC/?gssvx.c', "            for (j = 0; j < nrhs; ++j) ferr[j] = berr[j] = 1.0;", "            for (j = 0; j < nrhs; ++j) ferr[j] = berr[j] = 0.0;"), ['C13'], note='NOREFINE reports zero errors')
